@@ -239,6 +239,7 @@ def rule_type_param_used(ctx):
         miss = [b for b in bearing if not re.search(r"\b%s\b" % re.escape(b), pat + body)]
         if miss or not recurses(body):
             ctx.report(f"tpu:Type::{v}:no-recursion", ctx.where(f, arm["pat"]), f"the arm for `syn::Type::{v}` does not search its {miss or bearing}: a type parameter there is not seen and the `Error + 'static` bound on the source type is lost", {"arm": pat + "=>" + body[:200]})
+    early_returns_are_positive(ctx, fam.values(), "tpu", "the positions after it (first path segment, generic arguments of the path) are no longer searched when the first one says no")
     rt = A.fn_text(root)
     ctx.instance("tpu:Path:first-segment")
     if not re.search(r"\.path\.segments\.first\(\)\{if \w+\.contains\(&(\w+)\.ident\)\{return true\}\}", rt) and not re.search(r"segments\.first\(\)", rt):
@@ -268,5 +269,26 @@ def rule_type_param_used(ctx):
                 f"tpu:GenericArgument::{v}",
                 w,
                 f"`syn::GenericArgument::{v}` is not searched" + (": `source: Inner<Box<dyn Iterator<Item = T>>>` is not recognised as generic" if v == "AssocType" else ""),
+                {},
+            )
+
+
+def early_returns_are_positive(ctx, fns, tag, what):
+    """NEG-FALLTHROUGH: a detector that looks at several positions in turn may leave early only with a *positive* answer;
+    `return <anything else>` at one position hides the remaining positions (qualified self type checked, trait path's
+    generic arguments never looked at). The leading `if <set>.is_empty() { return false }` short-cut is the only exception."""
+    for fn in fns:
+        for r, ps in A.find(fn.block, "Expr::Return"):
+            txt = A.render(r)
+            ctx.instance(f"{tag}:return:{fn.qual}:{txt[:40]}")
+            if txt == "return true":
+                continue
+            iff = next((p for p in reversed(ps) if A.kind(p) == "Expr::If"), None)
+            if txt == "return false" and iff is not None and re.fullmatch(r"\w+\.is_empty\(\)", A.render(iff["cond"])) and iff in [s_.get("0") for s_ in fn.block["stmts"] if A.kind(s_) == "Stmt::Expr"]:
+                continue
+            ctx.report(
+                f"{tag}:early-negative:{fn.qual}",
+                ctx.where(fn.file, r),
+                f"`{fn.qual}` leaves with `{txt[:80]}` after looking at only one position: {what}",
                 {},
             )
